@@ -5,7 +5,7 @@
    Structs layer (coq/Structs/Machine.v), every history, every identity hash. *)
 From Salsa Require Import Base.
 From Salsa.Structs Require Import Model Dsl Machine ProofsStep Theorems Examples Guard SimBase Sim SimExamples
-     ProofsBase SSem SInv SRun SStale STop STop2 SAdeq SDsl S1Examples S1b.
+     ProofsBase SSem SInv SRun SStale STop STop2 SAdeq SDsl S1Examples S1b SKeyedEx.
 
 (* C07_invariant: in every reachable state of the machine the ownership invariant holds: free-list
    entries are dead slots with their generation, dead slots have empty memo tables, every id
@@ -401,3 +401,28 @@ Check C07_dependents_writes_partial :
             wcons prog idhash NF (wcur s') q /\
             (forall h, In h (snd v) -> live s' h).
 Print Assumptions C07_dependents_writes_partial.
+
+(* Struct-keyed families: INSTANCES only (the general statement C07_dependents_full_statement /
+   the keyed from-scratch theorem is not proved).  One handle-safe history of the executable
+   model with two struct-keyed families (onS reads its key; own creates a struct of its own):
+   the key struct is re-created in place with the same identity (only the no_eq field changes):
+   both keyed memos survive and are VALIDATED, not re-executed; the key is deleted: the cascade
+   discards the struct, the two memos keyed by it and the struct `own` created; the key is
+   re-created in a reused slot with the next generation: onS is EXECUTED afresh on the new id
+   (1,1) and answers from the new fields (6, not the old 4).  Every Get / GetS answer equals
+   the data value of the specification Structs/Spec.v on the snapshot after it (k_agrees_spec),
+   and the proved ownership invariant holds at the end. *)
+Example C07_keyed_instances :
+  handle_safe (prog_of 1 skind5 k_nodes) skind5 sfams5 k_idhash 40%nat (init (lookup3 k_ival) (fun _ => 0)) k_ops = true /\
+  snd (run_ops (prog_of 1 skind5 k_nodes) skind5 sfams5 k_idhash 40%nat (init (lookup3 k_ival) (fun _ => 0)) k_ops) =
+    [SOk (4, []); SOk (103, []); SOk (2, []); SOk (0, []); SOk (4, []); SOk (103, []);
+     SOk (0, []); SOk (0, []); SOk (0, []); SOk (0, []); SOk (0, []); SOk (6, []); SOk (1, [])] /\
+  List.rev (d_log (fst (run_ops (prog_of 1 skind5 k_nodes) skind5 sfams5 k_idhash 40%nat (init (lookup3 k_ival) (fun _ => 0)) k_ops))) =
+    [EvExec (1, (0, 0)); EvExec (2, (0, 0)); EvExec (3, (0, 0));
+     EvExec (1, (0, 0)); EvValidate (2, (0, 0)); EvValidate (3, (0, 0));
+     EvExec (1, (0, 0)); EvWillDiscard (1, (0, 0)) (0, 0); EvDiscardS (0, 0);
+     EvDiscardM (2, (0, 0)); EvDiscardM (3, (0, 0)); EvDiscardS (1, 0);
+     EvExec (1, (0, 0)); EvExec (2, (1, 1))] /\
+  agree_ops (prog_of 1 skind5 k_nodes) (init (lookup3 k_ival) (fun _ => 0)) k_ops = true /\
+  OInv skind5 (fst (run_ops (prog_of 1 skind5 k_nodes) skind5 sfams5 k_idhash 40%nat (init (lookup3 k_ival) (fun _ => 0)) k_ops)) [].
+Proof. exact (conj k_handle_safe (conj k_outputs (conj k_log (conj k_agrees_spec (proj1 k_invariant))))). Qed.
